@@ -1,13 +1,11 @@
 SPECIFICATION Spec
 CONSTANTS
-  MaxPub = 3
+  MaxPub = 2
   HistSize = 2
   MaxFaults = 1
   Kinds = {"pos"}
-  UrgentAsync = FALSE
+  UrgentAsync = TRUE
   RecLimit = 0
   MaxChecks = 1
-  Servers = {FALSE, TRUE}
-VIEW View
-INVARIANTS TypeOK C01 C02 C03 C10 C16 PosConsistent
+  Servers = {FALSE}
 CHECK_DEADLOCK FALSE
